@@ -27,6 +27,7 @@ def check(run):
     nowrite(run, p)
     extcase(run, p)
     defaults(run, p)
+    flagtable(run, p)
     applicable(run, p)
     from .common import observed_rule
     calc = p.cls('PandasConstraintCalculator')
@@ -99,20 +100,10 @@ def sameapi(run, p):
 
 
 def exits(run, p):
-    run.rule('C17-EXIT', 'unknown arguments and contradictory options end in sys.exit with a non-zero status inside the flag parsers; in every '
-                         'front end the missing-input test exits non-zero before the file is loaded or anything is written')
+    run.rule('C17-EXIT', 'in every front end the missing-input test exits non-zero before the file is loaded or anything is written '
+                         '(unknown and contradictory options are decided by C17-FLAGTABLE)')
     n = 0
     for cmd, (fl, pp, ff, lib, fe) in sorted(CMDS.items()):
-        f = p.fn('tdda.constraints.flags.' + fl)
-        for s in ast.walk(f.node):
-            if isinstance(s, ast.If) and ('more' in names_in(s.test) or
-                                          (isinstance(s.test, ast.BoolOp) and isinstance(s.test.op, ast.And) and 'flags' in ast.unparse(s.test) and 'no_' in ast.unparse(s.test))):
-                n += 1
-                last = s.body[-1]
-                ok = isinstance(last, ast.Expr) and isinstance(last.value, ast.Call) and norm(last.value.func) == 'sys.exit' and last.value.args \
-                    and isinstance(last.value.args[0], ast.Constant) and last.value.args[0].value not in (0, None)
-                run.ob('C17-EXIT', '%s::%s::%s' % (f.rel, f.short, norm(s.test)[:50]), ok,
-                       '`if %s` ends with %s' % (norm(s.test)[:60], norm(last)[:30]), fn=f, node=s)
         m = p.method(*fe.split('.'))
         body = m.node.body
         idx_call = next((i for i, s in enumerate(body) if any(isinstance(x, ast.Call) and getattr(x.func, 'id', '') == ff for x in ast.walk(s))), None)
@@ -125,7 +116,7 @@ def exits(run, p):
                 and isinstance(last.value.args[0], ast.Constant) and last.value.args[0].value not in (0, None)
         n += 1
         run.ob('C17-EXIT', '%s::%s::missing-input' % (m.rel, m.short), ok, '%s tests the input file and exits non-zero before calling %s' % (m.short, ff), fn=m)
-    run.floor('C17-EXIT', n, 8)
+    run.floor('C17-EXIT', n, 3)
 
 
 def defuse(run, p):
@@ -331,3 +322,84 @@ def applicable(run, p):
                'tdda %s: the pandas front end %s it (expected: %s)' % (' '.join(argv), 'takes' if got else 'does not take', 'takes' if want else 'leaves'),
                fn=f)
     run.floor('C17-APPLICABLE', n, 10)
+
+
+class _Exit(Exception):
+    def __init__(self, code):
+        self.code = code
+
+
+def flagtable(run, p):
+    """The three flag handlers evaluated, with the real argparse, on representative command lines."""
+    import argparse
+    import io
+    from ..pyeval import Interp, Model, Unsupported
+    run.rule('C17-FLAGTABLE', 'what the command line asks for is what the library is called with: for representative argument lists '
+                              'of tdda discover / verify / detect the parser the repository builds (real argparse, driven by the '
+                              'interpreted *_parser) and the interpreted *_flags handler produce the documented keyword arguments '
+                              '(report, ascii, type_checking, epsilon, write_all, per_constraint, output_fields, index, interleave, '
+                              'boolean_ints, inc_rex), and an unknown flag or a contradictory pair ends in sys.exit with a non-zero '
+                              'status before anything else happens')
+
+    def run_cmd(cmd, args):
+        I = Interp(p)
+        I.safe_modules = {'argparse'}
+        I.extra_names['argparse'] = argparse
+        printed = []
+        I.extra_names['print'] = lambda *a, **k: printed.append(a)
+
+        def _exit(code=0):
+            raise _Exit(code)
+        I.extra_calls['sys.exit'] = _exit
+        class Sys(Model):
+            stderr = 'stderr'
+            stdout = 'stdout'
+            exit = staticmethod(_exit)
+        I.extra_names['sys'] = Sys
+        pf = p.fn('tdda.constraints.flags.%s_parser' % cmd)
+        ff = p.fn('tdda.constraints.flags.%s_flags' % cmd)
+        I.on_call = None
+        try:
+            parser = I.call(pf, [])
+            params = {}
+            try:
+                I.call(ff, [parser, list(args), params])
+            except _Exit as e:
+                return 'exit', e.code
+            return 'ok', params
+        except Unsupported as e:
+            raise AnalysisError('tdda %s flag handling is not evaluable: %s' % (cmd, e))
+    T, F = True, False
+    cases = [
+        ('verify', [], {'report': 'all', 'ascii': F}),
+        ('verify', ['-f'], {'report': 'fields'}),
+        ('verify', ['-a', '-f'], {'report': 'all'}),
+        ('verify', ['-7', '-t', 'strict', '--epsilon', '0.05'], {'ascii': T, 'type_checking': 'strict', 'epsilon': 0.05}),
+        ('verify', ['--bogus'], 'exit'),
+        ('detect', [], {'per_constraint': T, 'output_fields': [], 'in_place': F, 'report': 'records', 'ascii': F}),
+        ('detect', ['--write-all', '--index', '--int', '--interleave'], {'write_all': T, 'index': T, 'boolean_ints': T, 'interleave': T}),
+        ('detect', ['--no-per-constraint'], {'per_constraint': None}),
+        ('detect', ['--no-output-fields'], {'output_fields': None}),
+        ('detect', ['--output-fields', 'a', 'b'], {'output_fields': ['a', 'b']}),
+        ('detect', ['--output-fields'], {'output_fields': []}),
+        ('detect', ['--per-constraint', '--no-per-constraint'], 'exit'),
+        ('detect', ['--output-fields', 'a', '--no-output-fields'], 'exit'),
+        ('detect', ['-t', 'sloppy', '--epsilon', '0.1', '-7'], {'type_checking': 'sloppy', 'epsilon': 0.1, 'ascii': T}),
+        ('detect', ['--nonsense'], 'exit'),
+        ('discover', [], {'inc_rex': F}),
+        ('discover', ['-r'], {'inc_rex': T}),
+        ('discover', ['--whatever'], 'exit'),
+    ]
+    n = 0
+    for cmd, args, want in cases:
+        n += 1
+        kind, got = run_cmd(cmd, args)
+        if want == 'exit':
+            ok = kind == 'exit' and got not in (0, None)
+            msg = 'ends with sys.exit(%r)' % (got,) if kind == 'exit' else 'is accepted with %r' % (got,)
+        else:
+            ok = kind == 'ok' and all((got.get(k) == v) if v is not None else (not got.get(k)) for k, v in want.items())
+            msg = 'gives %r' % (got,) if kind == 'ok' else 'ends with sys.exit(%r)' % (got,)
+        run.ob('C17-FLAGTABLE', 'tdda %s %s' % (cmd, ' '.join(args)), ok,
+               'tdda %s %s %s (expected %s)' % (cmd, ' '.join(args), msg, 'a non-zero exit' if want == 'exit' else want), fn=p.fn('tdda.constraints.flags.%s_flags' % cmd))
+    run.floor('C17-FLAGTABLE', n, 15)
